@@ -141,7 +141,7 @@ func HandleBulkBody(postBody []byte, ctx *fasthttp.RequestCtx, rid uint64, myid 
 	origItems := items
 	defer respItemsPool.Put(&origItems)
 
-	atleastOneSuccess := false
+	numCreated := 0
 	localIndexMap := make(map[string]string)
 
 	idxToStreamIdCache := make(map[string]string)
@@ -150,6 +150,8 @@ func HandleBulkBody(postBody []byte, ctx *fasthttp.RequestCtx, rid uint64, myid 
 	var jsParsingStackbuf [utils.UnescapeStackBufSize]byte
 
 	allPLEs := make([]*writer.ParsedLogEvent, 0)
+	// position of the response item of every event in allPLEs
+	itemOfPLE := make(map[*writer.ParsedLogEvent]int)
 	defer func() {
 		writer.ReleasePLEs(allPLEs)
 	}()
@@ -220,6 +222,7 @@ func HandleBulkBody(postBody []byte, ctx *fasthttp.RequestCtx, rid uint64, myid 
 						success = false
 					} else {
 						allPLEs = append(allPLEs, ple)
+						itemOfPLE[ple] = inCount - 1
 					}
 				}
 			} else {
@@ -257,7 +260,7 @@ func HandleBulkBody(postBody []byte, ctx *fasthttp.RequestCtx, rid uint64, myid 
 				items[inCount-1] = responsebody
 			}
 		} else {
-			atleastOneSuccess = true
+			numCreated++
 			items[inCount-1] = resp_status_201
 		}
 	}
@@ -272,7 +275,18 @@ func HandleBulkBody(postBody []byte, ctx *fasthttp.RequestCtx, rid uint64, myid 
 			jsParsingStackbuf[:], plesInBatch)
 		if err != nil {
 			log.Errorf("HandleBulkBody: failed to process index request, indexName=%v, err=%v", indexName, err)
-			// TODO: update `atleastOneSuccess`
+			// the events of this batch were not stored: their items must not say created
+			for _, ple := range plesInBatch {
+				responsebody := make(map[string]interface{})
+				error_response := utils.BulkErrorResponse{
+					ErrorResponse: *utils.NewBulkErrorResponseInfo("indexing request failed", "unavailable_shards_exception"),
+				}
+				responsebody["index"] = error_response
+				responsebody["status"] = 503
+				items[itemOfPLE[ple]] = responsebody
+			}
+			overallError = true
+			numCreated -= len(plesInBatch)
 		}
 	}
 
@@ -282,7 +296,7 @@ func HandleBulkBody(postBody []byte, ctx *fasthttp.RequestCtx, rid uint64, myid 
 	response["errors"] = overallError
 	response["items"] = items[0:inCount]
 
-	if atleastOneSuccess {
+	if numCreated > 0 {
 		return processedCount, response, nil
 	} else {
 		return processedCount, response, errors.New("all bulk requests failed")
